@@ -1098,6 +1098,9 @@ def _uris(ctx):
     def shown(v):
         return 'none' if v is None else ('val ' + cp(v) if isinstance(v, str) else f'{len(v)} lines')
 
+    def printable_ascii(s):
+        return all(0x20 <= ord(c) <= 0x7e for c in s)
+
     if ctx.shard[0] == 0:
         # the tables the model takes from CPython / falcon: str.split() whitespace, the characters secure_filename keeps, and the
         # assumption behind the ASCII lower-casing of the crossorigin check
@@ -1105,11 +1108,32 @@ def _uris(ctx):
         keep = [c for c in range(256) if falcon.secure_filename('a' + chr(c)) == 'a' + chr(c)]
         alpha = set('anonymous') | set('use-credentials')
         lower_ok = all(not set(chr(c).lower()) <= alpha for c in range(0x80, 0x110000))
+        # every code point, alone and after a letter: the fallback token is made of letters, digits, '.', '-', '_' only (no character of
+        # any script, case-folding special or compatibility form survives) and the whole header stays printable ASCII
+        tok = re.compile(r'[A-Za-z0-9._-]+')
+        bad_cp = []
+        for c in range(0x110000):
+            if 0xd800 <= c < 0xe000:
+                continue
+            try:
+                o = falcon.secure_filename('a' + chr(c))
+            except Exception as e:  # noqa
+                o = None
+            if o is None or not tok.fullmatch(o):
+                bad_cp.append(c)
+        ctx.oracle('secure_filename over every code point: the result is made of letters, digits, ".", "-", "_" only',
+                   not bad_cp, None if not bad_cp else 'secure_filename("a" + chr(c)) keeps a character outside [A-Za-z0-9._-] (or raises) for c in ' + ', '.join('U+%04X' % c for c in bad_cp[:8]) + (f' ... ({len(bad_cp)} code points)' if len(bad_cp) > 8 else ''),
+                   {'code_points': ['U+%04X' % c for c in bad_cp[:8]], 'count': len(bad_cp)})
+        for c in (bad_cp[:4] or [0x131, 0x130, 0x17f, 0x212a, 0x1d6a4]):
+            r0 = falcon.Response()
+            r0.downloadable_as = 'x' + chr(c) + '.pdf'
+            em0 = r0.get_header('Content-Disposition')
+            ctx.oracle('secure_filename over every code point: the result is made of letters, digits, ".", "-", "_" only', printable_ascii(em0),
+                       None if printable_ascii(em0) else f'downloadable_as: emitted {em0!r} is not pure printable ASCII', {'filename': 'x' + chr(c) + '.pdf'})
+        ctx.count('secure_filename_code_points_swept', 0x110000 - 0x800)
         sess.case({'tables': 'str.split() whitespace / secure_filename safe characters / str.lower() of non-ASCII'})
         sess.op('tables', f'{".".join("%x" % c for c in ws)} {".".join("%x" % c for c in keep)} {len(ws) if lower_ok else "lower-assumption-broken"}')
 
-    def printable_ascii(s):
-        return all(0x20 <= ord(c) <= 0x7e for c in s)
 
     def check_uri(orig, emitted, what):
         if not printable_ascii(emitted) or ' ' in emitted:
